@@ -106,7 +106,7 @@ def main():
         "setup_cmd": "cd /verif/sim && CARGO_NET_OFFLINE=true cargo build --release --offline && ./target/release/sim selftest --n 8 && cd /verif/miri && CARGO_NET_OFFLINE=true cargo +nightly miri run --offline -q -- C20 0",
         "hooks": {
             "guard": "bmwill_anemo_verif",
-            "enable": "RUSTFLAGS='--cfg bmwill_anemo_verif --cfg tokio_unstable' (set in /verif/sim/.cargo/config.toml; the simulator crate path-depends on /repo/crates/anemo and /repo/crates/anemo-tower, so every check rebuilds from /repo's working tree). Seams outside /repo, in the simulator's own build only ([patch.crates-io] in /verif/sim/Cargo.toml): vendor/tokio (1.53.1 + runtime::sim_sched: order of runnable tasks, held tasks), vendor/governor (0.6.3, quanta feature off), vendor/futures-timer (Delay on the tokio clock)",
+            "enable": "RUSTFLAGS='--cfg bmwill_anemo_verif --cfg tokio_unstable' (set in /verif/sim/.cargo/config.toml; the simulator crate path-depends on /repo/crates/anemo and /repo/crates/anemo-tower, so every check rebuilds from /repo's working tree). Seams outside /repo, in the simulator's own build only ([patch.crates-io] in /verif/sim/Cargo.toml): vendor/tokio (1.53.1 + runtime::sim_sched: order of runnable tasks, held tasks; time::sim_advance_without_yield: CPU time passing inside a poll), vendor/governor (0.6.3, quanta feature off), vendor/futures-timer (Delay on the tokio clock)",
             "baseline_off_cmd": "cd /repo && cargo test --workspace --no-fail-fast --offline",
             "source_commits": [l.split()[0] for l in HOOK_COMMITS][::-1],
             "add_only": True,
